@@ -27,4 +27,4 @@ for d in $demos; do cp $d /verif/seeded/$id/; done
 [ -f $out/notes.txt ] && cp $out/notes.txt /verif/seeded/$id/notes.txt
 echo "{\"demo_with_change_exit\":$with,\"demo_without_change_exit\":$without,\"demo_cmd\":\"$democmd\",\"demo_files\":\"$demos\",\"base_commit\":\"$(git -C /repo log --format=%h -1)\",\"checks\":[${res%,}]}" > /verif/seeded/$id/run.json
 cd / && git -C /repo worktree remove --force $WT
-rm -f /verif/replays/*
+
